@@ -15,11 +15,19 @@ LEVEL_TEXT = ("Lean model of the logic inside markdown.py: grouping of code bloc
               "placeholder replacement; theorems: exactly the indented and recipe/new-recipe fenced blocks are grouped in order with a new group at each "
               "new-recipe, and the substitution algebra; compile_pad: compiling the line-padded sources the front end builds equals compiling the block texts "
               "directly, up to the offsets inside the two positioned errors (for every padding and every text); render(k) is compared byte for byte with the model on generated documents and scales; grouping "
-              "with the observed code blocks.")
+              "with the observed code blocks. Scaled-value expressions in prose (C13c): the ScaledValueExpression patterns are transcribed literally into a "
+              "backtracking regex engine in Lean (braceMatch, braceParts); theorems: the match is anchored and sound and equals a search in which only "
+              "backslashes and braces matter (braceMatch_search, braceMatch_iff, braceMatch_greedy), the finditer tokenisation is a deterministic lexer "
+              "(brace_step_groups), every spelling of a number is read as its value (spelling_*), no zero denominator and no exception for sources up to "
+              "300 characters (braceParts_total, braceExpr_total), what an author writes with printBrace is matched as a whole and read back as the "
+              "original string (print_parse_roundtrip, side conditions each shown necessary), and scaling multiplies exactly the numbers found "
+              "(brace_scale); pattern.match and the constructed string are compared exactly with the model on exhaustive short soups, structured and "
+              "malformed sources. From the document text (C13d): which fenced block starts a new independent recipe, for documents of the sub-language D of "
+              "the block-scanner model (scan_group, scan_group_new).")
 LEVEL_NOTE = ("Partial: marko's CommonMark parsing/rendering is outside the model; 'everything else renders as plain CommonMark', absence of placeholder "
               "residue and independence of the random generator are checked by the oracle against marko.Markdown() on generated documents (search). "
               "Placeholder collisions with document text have probability about 26^-32 per position (stated, not proved).")
-LEAN_MODULES = ["RecipeGrid.Props.C13", "RecipeGrid.Props.C13b", "RecipeGrid.Props.C13d"]
+LEAN_MODULES = ["RecipeGrid.Props.C13", "RecipeGrid.Props.C13b", "RecipeGrid.Props.C13c", "RecipeGrid.Props.C13d"]
 SOURCES = ["recipe_grid/markdown.py"]
 RULE = ("generated documents: optional first heading (ATX/setext, serving phrases), prose with and without brace expressions, lists, quotes, raw HTML, code "
         "spans, other fenced code, 1-2 independent recipes of 1-3 blocks each as indented / ```recipe / ~~~new-recipe blocks at top level, in list items "
@@ -32,7 +40,34 @@ def gen_cases(run, n):
     return [gen_md.gen_doc(run.rng, descs=[d]) for d in gen_desc.CORPUS] + [gen_md.gen_doc(run.rng) for _ in range(n)]
 
 
+def brace_correspondence(run):
+    """C13c: ScaledValueExpression.pattern.match / the constructed ScaledValueString against Model/BraceExpr.lean (harness/brace_corr.py, its own
+    process: it lifts the interpreter's int/str digit limit only where it decodes the model's replies)"""
+    import os
+    import subprocess
+    import sys
+    mode = "--tiny" if run.tier == "quick" and not getattr(run, "escalated", False) else "--quick" if run.tier == "quick" else "--full"
+    here = os.path.dirname(os.path.dirname(os.path.abspath(__file__)))
+    p = subprocess.run([sys.executable, os.path.join(here, "brace_corr.py"), mode, "--seed", str(20260930 + run.seed)], stdout=subprocess.PIPE, stderr=subprocess.STDOUT,
+                       text=True, timeout=3000, env=dict(os.environ, PYTHONPATH=os.pathsep.join(x for x in sys.path if x)))
+    import re as _re
+    m = _re.search(r"compared: (\d+) match, (\d+) parse; disagreements: (\d+)", p.stdout)
+    if not m:
+        run.disagree("brace-expression", "harness/brace_corr.py " + mode, p.stdout[-800:], "n/a")
+        return
+    run.groups["ScaledValueExpression.pattern.match vs braceMatch"] += int(m.group(1))
+    run.groups["ScaledValueExpression(...).string vs braceParts"] += int(m.group(2))
+    run.evaluations += int(m.group(1)) + int(m.group(2))
+    for line in p.stdout.splitlines():
+        mm = _re.match(r"\s+((?:match|parse|roundtrip)/\S+)\s+(\d+)$", line)
+        if mm:
+            run.dist["brace:" + mm.group(1)] += int(mm.group(2))
+    for blk in _re.findall(r"DISAGREE (\w+) input=(.*)\n\s+real =(.*)\n\s+model=(.*)", p.stdout)[:10]:
+        run.disagree("brace-expression:" + blk[0], blk[1], blk[2], blk[3])
+
+
 def correspondence(run):
+    brace_correspondence(run)
     docs = gen_cases(run, run.budget(250, 5000))
     reqs, meta = [], []
     for doc in docs:
